@@ -11,13 +11,20 @@ the specification."""
 import json
 import random
 
+import os
+import sys
+
+import geom
 import interp
 import vlib
+
+sys.path.insert(0, os.path.dirname(os.path.abspath(__file__)))
+import c09  # noqa: E402  (placement cases share C09's concretiser and oracle)
 
 
 def run(rep, tier, seed):
     rep.assumptions += ["Inline(P) is computed by the specification (Sem.Ideal .unr)",
-                        "reuse placement (x/y) is exercised by the geometry families of C09; here instances keep the template's own position"]
+                        "placement of instances (x/y, centre, anchors, relative to another element) comes from Geom.tla ReusePosCases"]
     cmp = interp.standard_compare()
     big = tier == "thorough"
     r = interp.family_check(rep, "reuse", tier, seed, cmp, dict(MaxNodes=3), dict(MaxNodes=4),
@@ -33,6 +40,14 @@ def run(rep, tier, seed):
                                  MaxNodes=6, MaxDepth=4)
     interp.twin_check(rep, [x for x in sim if any_reuse(x["doc"])], seed + 3, "c18s", "inline")
     interp.negative_control(rep, "reuse", "LeakScopeOnError", {"ScopeBalanced", "ResultIsIdeal", "CleanAtEnd"}, MaxNodes=3)
+    # placement of instances: template kind x template location x anchor x way of writing the position
+    pcs = geom.run_geom_family(rep, "reusepos", tier, ["RelIdentities"])
+    cases = []
+    for j, c in enumerate(pcs):
+        xml = c09.concretise(c, random.Random(seed * 7919 + j))
+        cases.append({"k": f"c18p-{j}", "xml": xml, "case": c, "key": xml})
+    geom.run_and_compare(rep, cases, c09.rel_check, "c18p")
+    rep.notes["placement_cases"] = len(cases)
     rep.notes["rule"] = "every document of the reuse family within MaxNodes (TLC) with its specification-derived inlining"
     rep.notes["exhaustive"] = big
 
